@@ -191,7 +191,10 @@ def judge_loop(n, lo, hi, off, nested=False):
         r = np.array(f(0, ca.DM(), ca.DM(), alg, ca.DM(), ca.DM(), ca.DM())).reshape(-1)
         got = [int(round(np.log2(-x))) + 1 if x < 0 else None for x in r[:cnt]]
     except Exception as e:  # noqa
-        if need_error or cnt <= 0:
+        if need_error or cnt <= 0 or lo < 0 or hi < 0:
+            # a negative literal as a range bound is not read by pymoca at all (a loud AttributeError on the range, before any
+            # subscript is looked at): generation failed with an error and no subscript was reinterpreted, which is all the
+            # statement asks; demanding that such a model is ACCEPTED would be more than the property says
             return None
         return {"class": "loop", "input": txt, "observed": "%s: %s" % (type(e).__name__, str(e)[:100]), "expected": "elements %s" % want}
     if need_error:
@@ -337,8 +340,38 @@ def main():
                       "bound": "n <= 3 (1-D), 2x3 (2-D), window +-2"}))
 
 
+def judge_position(template, k, n=3):
+    """one subscript k on Real x[n] written at a position where no value of the model ever depends on it (a branch of an
+    if-expression whose condition is known): out of range must still fail, in range must still generate"""
+    txt = "model M Real x[%d]; Real y; Real s; equation x = fill(1.0, %d); s = 1; %s end M;" % (n, n, template.format(k=("(%d)" % k) if k < 0 else k))
+    need_error = k < 1 or k > n
+    try:
+        gen(txt)
+    except Exception as e:  # noqa
+        if need_error:
+            return None
+        return {"class": "position", "input": txt, "observed": "%s: %s" % (type(e).__name__, str(e)[:100]), "expected": "a model (subscript %d lies in 1..%d)" % (k, n)}
+    if need_error:
+        return {"class": "position", "input": txt, "observed": "no error", "expected": "an error (subscript %d outside 1..%d)" % (k, n)}
+    return None
+
+
+POSITIONS = ["y = if false then x[{k}] else x[1];", "y = if true then x[1] else x[{k}];", "y = if 1 > 2 then x[{k}] else s;",
+             "y = if s > 0 then x[1] elseif true then x[2] else x[{k}];", "y = if s > 0 then x[{k}] else x[1];",
+             "y = if x[{k}] > 0 then 1 else 2;", "y = max(s, x[{k}]);"]
+
+
 def sweep(tier, limit_first=False):
     failures, cases, distinct = [], 0, 0
+    for template in POSITIONS:
+        for k in range(-1, 6):
+            cases += 1
+            distinct += 1
+            r = judge_position(template, k)
+            if r:
+                failures.append(r)
+                if limit_first:
+                    return failures, cases, distinct
     for n in (1, 2, 3):
         for s in subs_window(n, tier):
             cases += 1
